@@ -122,8 +122,8 @@ pub trait CopyOps<T> : TooDeeOpsMut<T> {
         assert!(bottom_right.1 <= num_rows);
         let cols = bottom_right.0 - top_left.0;
         let rows = bottom_right.1 - top_left.1;
-        assert!(dest.0 + cols <= num_cols);
-        assert!(dest.1 + rows <= num_rows);
+        assert!(dest.0.checked_add(cols).map_or(false, |end| end <= num_cols));
+        assert!(dest.1.checked_add(rows).map_or(false, |end| end <= num_rows));
         // Ensure that we don't copy over src before copying it to dest.
         match top_left.1.cmp(&dest.1) {
             Ordering::Less => {
